@@ -625,3 +625,47 @@ Proof.
   - destruct (r_list_begin b) as [[[et sz] m]| | |] eqn:E; cbn [bind]; try discriminate. intros H; inversion H; subst. eapply r_list_begin_bounded; eauto.
   - destruct (r_set_begin b) as [[[et sz] m]| | |] eqn:E; cbn [bind]; try discriminate. intros H; inversion H; subst. eapply r_set_begin_bounded; eauto.
 Qed.
+
+(* ---------- a sequence of in-place writes ---------- *)
+Lemma w_seq_enc its : forall buf off,
+  off + len (concat (map enc its)) <= len buf ->
+  w_seq buf off its =
+    Ok (take off buf ++ concat (map enc its) ++ drop (off + len (concat (map enc its))) buf, map (fun it => len (enc it)) its).
+Proof.
+  induction its as [|it its IH]; intros buf off Hfit; cbn [w_seq map concat] in *.
+  - cbn [app]. rewrite len_nil, N.add_0_r. now rewrite take_drop.
+  - rewrite len_app in Hfit. rewrite w_at_enc by lia. cbn [bind].
+    set (b1 := take off buf ++ enc it ++ drop (off + len (enc it)) buf).
+    assert (Hl1 : len b1 = len buf).
+    { unfold b1. rewrite !len_app, take_len, drop_len by lia. lia. }
+    rewrite IH by lia. cbn [bind]. f_equal. f_equal.
+    assert (Ht : take (off + len (enc it)) b1 = take off buf ++ enc it).
+    { unfold b1. rewrite app_assoc. apply take_app_exact. rewrite len_app, take_len by lia. reflexivity. }
+    assert (Hd : drop (off + len (enc it) + len (concat (map enc its))) b1 =
+                 drop (off + (len (enc it) + len (concat (map enc its)))) buf).
+    { unfold b1. rewrite app_assoc.
+      replace (off + len (enc it) + len (concat (map enc its)))
+        with (len (take off buf ++ enc it) + len (concat (map enc its)))
+        by (rewrite len_app, take_len by lia; reflexivity).
+      rewrite <- drop_drop, drop_app_len, drop_drop. f_equal. lia. }
+    rewrite Ht, Hd, len_app, <- !app_assoc. reflexivity.
+Qed.
+
+(* field headers read directly *)
+Lemma r_field_begin_enc t id rest :
+  in_signed 8 t -> in_signed 16 id -> t <> 0%Z ->
+  r_field_begin (enc (IFieldBegin t id) ++ rest) = Ok (t, id, 3).
+Proof.
+  intros Ht Hid Hnz. cbn [enc]. unfold r_field_begin. cbn [app].
+  rewrite need_ok by (rewrite len_cons; lia). cbn [bind nth].
+  rewrite i8_u8 by exact Ht. change thrift_STOP with 0%Z.
+  destruct (Z.eqb_spec t 0) as [->|_]; [congruence|].
+  rewrite need_ok by (rewrite len_cons, len_app, be_len; lia). cbn [bind].
+  change (drop 1 (u8 t :: be 2 (u16 id) ++ rest)) with (be 2 (u16 id) ++ rest).
+  rewrite take_be2, unbe_be2 by apply u16_lt. now rewrite i16_u16.
+Qed.
+Lemma r_field_begin_stop rest : r_field_begin (0 :: rest) = Ok (0%Z, 0%Z, 1).
+Proof.
+  unfold r_field_begin. rewrite need_ok by (rewrite len_cons; lia). cbn [bind nth].
+  change (i8 0) with 0%Z. change thrift_STOP with 0%Z. reflexivity.
+Qed.
